@@ -198,7 +198,7 @@ impl Check for C06 {
             }
             return serde_json::to_value(sc).unwrap();
         }
-        let k = GenKnobs { max_nodes: 5, max_ops: 30, span_ms: 15_000, level_bias_none: 0.08 };
+        let k = GenKnobs { max_nodes: 5, max_ops: 30, span_ms: 15_000, level_bias_none: 0.08, ghosts: 0.0, big_bulk: 0.07 };
         let mut sc = gen_cluster_scenario(&mut rng, &k);
         // more refusing replicas
         for n in sc.cfg.nodes.iter_mut() {
